@@ -410,12 +410,24 @@ def main(argv=None):
     try:
         mod.run(ctx)
         return ctx.finish()
-    except subprocess.TimeoutExpired as e:
-        print(f"machinery timeout: {e}", file=sys.stderr)
-        return 2
-    except Exception:
+    except (subprocess.TimeoutExpired, MachineryError, OSError, MemoryError) as e:
         import traceback
 
         traceback.print_exc()
-        print("machinery error (exit 2, not a verdict)", file=sys.stderr)
+        print(f"machinery error / timeout (exit 2, not a verdict): {e}", file=sys.stderr)
         return 2
+    except Exception as e:  # noqa: BLE001
+        # The harness itself tripped over what the implementation returned (e.g. a result of unexpected
+        # shape or type). That is a broken correspondence, not a machinery failure: it is reported like any
+        # other tie that no longer checks (DESIGN.md section 5), naming the exception in the replay file.
+        import traceback
+
+        tb = traceback.format_exc()
+        print(tb, file=sys.stderr)
+        ctx.mark("HARNESS-EXCEPTION", {"exception": repr(e), "traceback_tail": tb[-3000:],
+                                       "meaning": "the correspondence harness could not process the implementation's behaviour"})
+        try:
+            return ctx.finish()
+        except Exception:  # noqa: BLE001
+            traceback.print_exc()
+            return 2
